@@ -15,5 +15,5 @@ K_GD == 564136533
 K_Gap == 1
 K_OntSupply == 1000000000
 K_OngSupply == K_OntSupply * 1000000000 + 0   \* 10^18 (TLC cannot parse the literal)
-K_GapAtDeadline == FALSE
+K_GapAtDeadline == TRUE
 =============================================================================
